@@ -349,6 +349,28 @@ Definition sarif (r : report) : sarif_doc :=
     (fold_left sarif_violation_step (r_violations r)
        {| sd_rules := []; sd_artifacts := []; sd_results := [] |}).
 
+(* Cross-references inside ONE sarif document (seed round 3).  A result names its rule twice: by id
+   ([sr_rule] = ruleId) and by position in tool.driver.rules ([sr_index] = ruleIndex, which consumers
+   use to look up description / help URI / category when it is present); its location names a file
+   that the artifacts list must contain.  [sarif_refs_consistent] is what a consumer may rely on; it
+   is evaluated on the model's document (theorem) and on every observed document (Check/C10Check.v). *)
+Definition sarif_rule_ref_ok (rules : list sarif_rule) (x : sarif_result) : bool :=
+  match sr_index x with
+  | Some i => match nth_error rules (N.to_nat i) with
+              | Some ru => str_eqb (sru_id ru) (sr_rule x)
+              | None => false
+              end
+  | None => existsb (fun ru => str_eqb (sru_id ru) (sr_rule x)) rules
+  end.
+Definition sarif_artifact_ref_ok (arts : list str) (x : sarif_result) : bool :=
+  match sr_loc x with Some (uri, _) => str_in uri arts | None => true end.
+Definition sarif_refs_consistent (d : sarif_doc) : bool :=
+  forallb (fun x => sarif_rule_ref_ok (sd_rules d) x && sarif_artifact_ref_ok (sd_artifacts d) x)
+          (sd_results d).
+(* the class of defect "tool.driver.rules re-ordered after the results were created" (here: reversed) *)
+Definition sarif_rules_reordered (d : sarif_doc) : sarif_doc :=
+  {| sd_rules := rev (sd_rules d); sd_artifacts := sd_artifacts d; sd_results := sd_results d |}.
+
 (* ------------------------------------------------------------------ junit *)
 
 (* encoding/xml writes U+FFFD for every rune outside the XML Char production; the reporter now does
@@ -410,6 +432,14 @@ Definition junit_gen (safe : str -> str) (files : list str -> list str) (r : rep
   let suites := map (junit_suite_gen safe vs) (files (map (fun v => l_file (v_loc v)) vs)) in
   {| jd_tests := sum_N (map js_tests suites); jd_failures := sum_N (map js_failures suites);
      jd_suites := suites |}.
+
+(* the redundant counts of ONE junit document: tests= / failures= of every suite and of the whole
+   document against the test cases listed (every test case of this reporter is a failure) *)
+Definition junit_counts_consistent (d : junit_doc) : bool :=
+  forallb (fun s => (js_tests s =? N.of_nat (List.length (js_cases s))) &&
+                    (js_failures s =? N.of_nat (List.length (js_cases s)))) (jd_suites d) &&
+  (jd_tests d =? sum_N (map (fun s => N.of_nat (List.length (js_cases s))) (jd_suites d))) &&
+  (jd_failures d =? sum_N (map (fun s => N.of_nat (List.length (js_cases s))) (jd_suites d))).
 
 (* pinned commit: the file name is appended once per violation, sorted, never compacted,
    and the CDATA body is written as is *)
